@@ -25,7 +25,7 @@ func init() {
 			"The four views are desired = U over A, dataplane = A+B, pending updates = U, pending deletions = B; they equal the two maps and their exact difference iff the representation invariant holds: " +
 			"(partition) A,B disjoint and U,B disjoint, three distinct map objects, none supplied by a caller; (pending) a key in both U and A has values that valuesEqual rejected; (len) desiredLen = |U u A|. " +
 			"For every method of the ten tracker/view types the checker interprets the method's SSA (inlining in-package callees and closures) on every CFG path from every invariant-satisfying entry state of a two-key universe " +
-			"(methods are generic in K,V and touch keys only through map operations, so two keys cover all pairwise interactions), with valuesEqual, log-level tests and callback results forked every way, and decides at every exit: " +
+			"(methods are generic in K,V and touch keys only through map operations, so two keys cover all pairwise interactions; an unexported, non-accessor method that is only called from other modelled methods is an internal helper without a view-level contract: it is interpreted where it is called, its map-typed parameters bound to the caller's abstract maps, and must be reached by at least one caller's execution), with valuesEqual, log-level tests and callback results forked every way, and decides at every exit: " +
 			"the invariant again holds (C18.partition, C18.pending, C18.len), and the method had exactly its view-level effect (C18.effect): Set/Add, Delete, DeleteAll, ReplaceAllMap, ReplaceAllIter/ReplaceFromIter (success and mid-iteration error), Get/Contains, Iter (each entry of the view exactly once, with its value), " +
 			"pending Iter (callback sees exactly the pending entries; IterActionUpdateDataplane moves exactly that key into the dataplane view with the pending value; any other result changes nothing), Len of every view; the other view is unchanged and the second key is untouched. " +
 			"(C18.views) every view accessor returns the receiver itself; no composite literal or dereference copy of a tracker/view type outside New. (C18.noalias) no method returns an internal map or hands it to a callback or foreign function. " +
@@ -438,17 +438,147 @@ func runC18(c *Ctx) {
 		return
 	}
 
+	// Internal helpers: an unexported, non-accessor method that is only ever called
+	// (statically) from the bodies of modelled methods is not part of the views' API;
+	// it has no view-level contract of its own.  It is interpreted where it is called -
+	// the executor inlines in-package callees, binding map-typed parameters to the
+	// caller's abstract maps - and its effect is checked as part of each caller's.
+	helpers := c18Helpers(p, sp, methods)
+	inlined := map[*ssa.Function]bool{}
 	for _, m := range methods {
+		if helpers[m.fn] {
+			continue
+		}
 		if m.kind == "batched" {
 			c18Batched(c, p, m, nm)
 			c18Lockstep(c, p, m)
 			continue
 		}
-		c18RunMethod(c, p, sp, m, nm, resultVals, updateConst)
+		c18RunMethod(c, p, sp, m, nm, resultVals, updateConst, inlined)
+	}
+	// fail closed: a helper that was excluded must have been interpreted in a caller
+	for _, m := range methods {
+		if helpers[m.fn] && !inlined[m.fn] {
+			c.Undecided("C18.effect/"+m.id(), p.Pos(m.fn.Pos()), "unexported helper %s is called only from other methods but was never reached by the symbolic execution of any of them", m.id())
+		}
 	}
 
 	c18Copies(c, p, trackerTypes)
 	c18Apply(c, p)
+}
+
+// c18Helpers computes the set of internal helper methods among the tracker/view
+// methods: unexported, not a view accessor, never used as a value, at least one static
+// call site, and every call site lies in the body (closures included) of a modelled
+// method that is not itself excluded for lack of callers (greatest fixed point, then
+// restricted to helpers reachable from an API method).
+func c18Helpers(p *Prog, sp *ssa.Package, methods []c18Method) map[*ssa.Function]bool {
+	isMethod := map[*ssa.Function]bool{}
+	for _, m := range methods {
+		isMethod[m.fn] = true
+	}
+	origin := func(f *ssa.Function) *ssa.Function {
+		if f != nil && f.Origin() != nil {
+			return f.Origin()
+		}
+		return f
+	}
+	top := func(f *ssa.Function) *ssa.Function {
+		for f.Parent() != nil {
+			f = f.Parent()
+		}
+		return origin(f)
+	}
+	callers := map[*ssa.Function]map[*ssa.Function]bool{} // callee -> top-level callers
+	asValue := map[*ssa.Function]bool{}
+	// every body of the package: the (generic) methods themselves - they are not
+	// runtime types' methods and so not enumerated by AllFuncs -, the package-level
+	// functions, and all closures of both
+	var roots []*ssa.Function
+	seenRoot := map[*ssa.Function]bool{}
+	addRoot := func(f *ssa.Function) {
+		if f != nil && f.Blocks != nil && !seenRoot[f] {
+			seenRoot[f] = true
+			roots = append(roots, f)
+		}
+	}
+	for _, m := range methods {
+		addRoot(m.fn)
+	}
+	for _, mem := range sp.Members {
+		if f, ok := mem.(*ssa.Function); ok {
+			addRoot(f)
+		}
+	}
+	for _, f := range p.AllFuncs() {
+		if f.Blocks != nil && top(f).Pkg == sp {
+			addRoot(top(f))
+		}
+	}
+	sort.Slice(roots, func(i, j int) bool { return roots[i].Pos() < roots[j].Pos() })
+	for _, f := range withClosures(roots) {
+		allInstrs(f, false, func(_ *ssa.Function, in ssa.Instruction) {
+			var calleeOp *ssa.Value
+			if ci, ok := in.(ssa.CallInstruction); ok {
+				cc := ci.Common()
+				if sf := origin(cc.StaticCallee()); sf != nil && isMethod[sf] {
+					if _, isCall := in.(*ssa.Call); !isCall {
+						asValue[sf] = true // go / defer: not inlined by the executor
+					}
+					if callers[sf] == nil {
+						callers[sf] = map[*ssa.Function]bool{}
+					}
+					callers[sf][top(f)] = true
+				}
+				calleeOp = &cc.Value
+			}
+			for _, op := range in.Operands(nil) {
+				if op == nil || op == calleeOp {
+					continue
+				}
+				if g, ok := (*op).(*ssa.Function); ok && isMethod[origin(g)] {
+					asValue[origin(g)] = true
+				}
+			}
+		})
+	}
+	cand := map[*ssa.Function]bool{}
+	for _, m := range methods {
+		o, _ := m.fn.Object().(*types.Func)
+		if o == nil || o.Exported() || m.kind == "accessor" || asValue[m.fn] || len(callers[m.fn]) == 0 {
+			continue
+		}
+		cand[m.fn] = true
+	}
+	for changed := true; changed; {
+		changed = false
+		for f := range cand {
+			for g := range callers[f] {
+				if !isMethod[g] {
+					delete(cand, f)
+					changed = true
+					break
+				}
+			}
+		}
+	}
+	// reachable from a method that is run stand-alone
+	reach := map[*ssa.Function]bool{}
+	var visit func(f *ssa.Function)
+	visit = func(f *ssa.Function) {
+		for h := range cand {
+			if callers[h][f] && !reach[h] {
+				reach[h] = true
+				visit(h)
+			}
+		}
+	}
+	for _, m := range methods {
+		if !cand[m.fn] {
+			visit(m.fn)
+		}
+	}
+	return reach
 }
 
 func c18Mutator(m c18Method) bool {
@@ -461,7 +591,7 @@ func c18Mutator(m c18Method) bool {
 	return false
 }
 
-func c18RunMethod(c *Ctx, p *Prog, sp *ssa.Package, m c18Method, nm c18Names, resultVals map[string][]int64, updateConst int64) {
+func c18RunMethod(c *Ctx, p *Prog, sp *ssa.Package, m c18Method, nm c18Names, resultVals map[string][]int64, updateConst int64, inlined map[*ssa.Function]bool) {
 	site := p.Pos(m.fn.Pos())
 	id := m.id()
 	effectRule := "C18.effect/"
@@ -519,7 +649,7 @@ func c18RunMethod(c *Ctx, p *Prog, sp *ssa.Package, m c18Method, nm c18Names, re
 		return
 	}
 
-	x := &c18Exec{p: p, pkg: sp, resultVals: resultVals, problems: map[string]bool{}, escapes: map[string]bool{}, curTop: id}
+	x := &c18Exec{p: p, pkg: sp, resultVals: resultVals, problems: map[string]bool{}, escapes: map[string]bool{}, curTop: id, inlined: inlined}
 	vd := &c18Verdict{bad: map[string]string{}, site: site}
 	paths := 0
 	extCombos := 1
